@@ -39,6 +39,13 @@ def queries_for(task, rb):
         if maxv == "T21":
             tq = scopes.type_queries(rb.sems, nW, 2, 1)
             tq += [x for x in scopes.type_queries(rb.sems, nW, 1, 2) if x not in set(tq)]
+            # plus every (2,2) type-level query that the reference classifies as tie-rich (>= 2 tied sets in a layer above
+            # the lowest): these are the inputs on which the tie handling of the W / lex recursions can go wrong
+            part = rb.fin if task["weakly"] else rb.part
+            feas = rb.feas if task["weakly"] else rb.full
+            if part is not None and len(part) >= 2:
+                have = set(tq)
+                tq += [x for x in scopes.type_queries(rb.sems, nW, 2, 2) if x not in have and ref.tie_rich(part, rb.sems, x, feas)]
         else:
             tq = scopes.type_queries(rb.sems, nW, maxv, maxf)
         for vf in tq:
